@@ -164,16 +164,36 @@ func (d *Discharger) standalone(vc *VC, ob *Oblig, base string) {
 		// reachability canary: a model of the quantifier-free part is what solvers can produce
 		qf := fmt.Sprintf("%s.%d.qf.smt2", base, ob.Index)
 		os.WriteFile(qf, []byte(vc.sc.StandaloneQF(ob.Index)), 0o644)
-		d.sem <- struct{}{}
-		r := runSolver(context.Background(), solvers[0], qf, d.TimeoutS)
-		<-d.sem
-		d.note(r)
-		if r.result == "sat" {
-			ob.Result = "sat"
-			ob.Solver = r.solver + "(quantifier-free part)"
-			ob.Seconds = r.seconds
-			ob.File = qf
-			d.credit(r.solver)
+		ctxq, cancelq := context.WithCancel(context.Background())
+		chq := make(chan solveResult, len(solvers))
+		for _, s := range solvers {
+			go func(s solverSpec) {
+				d.sem <- struct{}{}
+				defer func() { <-d.sem }()
+				if ctxq.Err() != nil {
+					chq <- solveResult{solver: s.name, result: "cancelled"}
+					return
+				}
+				r := runSolver(ctxq, s, qf, d.TimeoutS)
+				d.note(r)
+				chq <- r
+			}(s)
+		}
+		found := false
+		for range solvers {
+			r := <-chq
+			if r.result == "sat" && !found {
+				found = true
+				ob.Result = "sat"
+				ob.Solver = r.solver + "(quantifier-free part)"
+				ob.Seconds = r.seconds
+				ob.File = qf
+				d.credit(r.solver)
+				cancelq()
+			}
+		}
+		cancelq()
+		if found {
 			return
 		}
 	}
